@@ -104,10 +104,9 @@ def oblig(ctx, m):
     else:
         ctx.record('C08:kahan_add:term-identity', 'M', 'note', detail='kahan_add is not the textbook three-liner (%d paths): the lemmas below decide whether it still sums correctly' % len(paths))
     # ---- register operations are kahan_add applications
-    reg_ident(ctx, m, paths)
+    jobs = list(reg_ident(ctx, m, paths) or [])
     # ---- lemmas on every path of kahan_add
     thorough = ctx.tier == 'thorough'
-    jobs = []
     for i, (pc, t, c2) in enumerate(paths):
         tag = '' if len(paths) == 1 else ':path%d' % i
         outs = {'t': t, 'c2': c2}
@@ -200,8 +199,9 @@ def run_jobs(ctx, m, jobs):
 
 def reg_ident(ctx, m, paths):
     """`KahanSum += x`, `KahanSum += KahanSum`, `KahanSum + x` expressed through kahan_add (term identities on the single-path source)."""
+    extra_jobs = []
     if len(paths) != 1 or paths[0][0]:
-        return
+        return extra_jobs
     _, t, c2 = paths[0]
     s, c, x = T.var('s'), T.var('c'), T.var('x')
 
@@ -250,8 +250,24 @@ def reg_ident(ctx, m, paths):
             why = rs[0].value[1] if rs else 'no path'
             v = ctx.classify(nm, '`KahanSum + x` is not (recognisably) `+=`: %s' % why, lambda: native_battery(ctx, nm))
             ctx.record(nm, 'M', {'violation': 'violated', 'known': 'known-finding', 'inconclusive': 'inconclusive'}[v], key=nm, detail=why[:200])
+        elif all(r.kind == 'return' for r in rs):
+            # not the same DAG as `+=` (e.g. implemented through the register merge): decide it semantically. On every path of `a + x`, from a
+            # register with a rounding-level compensation: the maintained quantity absorbs x up to 4u|x| + 4|c| (first-order in the ADDEND only,
+            # so a stream folded with `+` stays O(u sum|x|)), and the new compensation is again rounding-level.
+            ctx.record(nm + ':dag', 'M', 'note', detail='`KahanSum + x` is not the DAG of `+=` (%d paths): decided by the lemma plus-absorbs-x instead' % len(rs))
+            eb, sb = 3, 4
+            for i, r in enumerate(rs):
+                S_, C_ = reg(r.value)
+                pre = '(assert (bvsle (bvshl %s (_ bv%d 64)) (bvmul (_ bv2 64) %s)))' % (ABS('c_fx'), sb, ABS('s_fx'))
+                d = '(bvsub (bvsub (bvsub S_fx C_fx) (bvsub s_fx c_fx)) x_fx)'
+                goal = '(and (bvsle (bvshl %s (_ bv%d 64)) (bvadd (bvmul (_ bv4 64) %s) (bvshl (bvmul (_ bv4 64) %s) (_ bv%d 64)))) (bvsle (bvshl %s (_ bv%d 64)) (bvmul (_ bv2 64) %s)))' % (
+                    ABS(d), sb, ABS('x_fx'), ABS('c_fx'), sb, ABS('C_fx'), sb, ABS('S_fx'))
+                for cu in itertools.product(range(2 ** eb - 1), repeat=2):
+                    extra_jobs.append(('C08:register:plus-absorbs-x-first-order-in-x:F(%d,%d)' % (eb, sb) + ('' if i == 0 else ':path%d' % i),
+                                       build(eb, sb, ['s', 'c', 'x'], {'S': S_, 'C': C_}, r.pc, pre + '\n(assert (not %s))' % goal, cube=dict(zip(['s', 'x'], cu))), 180, nm))
         else:
             m.violated_structurally(nm, nm, '`KahanSum + x` does not accumulate x into the left register like `+=`', replay=lambda model, p: native_battery(ctx, nm))
+    return extra_jobs
 
 
 def native_battery(ctx, what):
